@@ -19,18 +19,41 @@ func c12JSONClient(r *Run) {
 	do := "ctxhttp.Do(*)#0"
 	if fn := r.Fn(c12Get); fn != nil {
 		want := wantRspError(fn, do+".StatusCode", "io.ReadAll(*)#0")
-		dec := asInstrs(CallsTo(fn, "(*json.Decoder).Decode"))
+		// every JSON call of the function: nothing of the body is parsed once the read failed / the status is not 200
+		dec := asInstrs(c12JSONCalls(fn))
 		r.FailEdge(fn, "GetAndParse", EdgeSpec{Name: "body-read-error", Atom: nilAtom("io.ReadAll(*)#1"), Bad: "non", Want: want, Unreach: dec})
 		r.FailEdge(fn, "GetAndParse", EdgeSpec{Name: "status-not-200", Atom: ordAtomR(do+".StatusCode", "200"), Bad: "<,>", Want: want, Unreach: dec})
-		r.FailEdge(fn, "GetAndParse", EdgeSpec{Name: "json-error", Atom: nilAtom("(*json.Decoder).Decode(*)"), Bad: "non", Want: want})
 		r.FailEdge(fn, "GetAndParse", EdgeSpec{Name: "transport-error", Atom: nilAtom("ctxhttp.Do(*)#1"), Bad: "non", Want: wantErr(true), Unreach: asInstrs(CallsTo(fn, "io.ReadAll"))})
 		c12SuccessShape(r, fn, "GetAndParse", do, "io.ReadAll(*)#0")
-		if len(dec) == 1 {
-			c := dec[0].(ssa.CallInstruction)
-			r.ExpectArg(c, "GetAndParse:decode.target", 1, "p4")
-			r.ExpectArg(c, "GetAndParse:decode.source", 0, "json.NewDecoder(bytes.NewReader(io.ReadAll(*)#0))")
+		// The caller's rsp is filled by one JSON decode of the body that was read — json.Unmarshal(body, rsp)
+		// or json.NewDecoder(bytes.NewReader(body)).Decode(rsp); any further Decode of that decoder goes
+		// into a scratch local (it only asks whether input is left: C12.R11 decides that it does its job).
+		var prim []ssa.CallInstruction
+		undecided := ""
+		for _, c := range c12JSONDecodes(fn) {
+			if c12TargetWhy(r, fn, c, 1, "p4") == "" {
+				prim = append(prim, c)
+			} else if CalleeOf(c) != c12DecDecode || baseAlloc(CallArgs(c)[1]) == nil {
+				undecided = fmt.Sprintf("; %s at %s decodes into %s, which is neither rsp nor a scratch local", CalleeOf(c), r.Where(c), r.D.D(CallArgs(c)[1]))
+			}
+		}
+		if len(prim) == 1 && undecided == "" {
+			c := prim[0]
+			c12TargetIs(r, fn, c, "GetAndParse:decode.target", 1, "p4")
+			errAtom := nilAtom("json.Unmarshal(*)")
+			if CalleeOf(c) == c12DecDecode {
+				r.ExpectArg(c, "GetAndParse:decode.source", 0, "json.NewDecoder(bytes.NewReader(io.ReadAll(*)#0))")
+				errAtom = RuleAtom{Pat: "nil?" + r.D.D(CallResult(c, 0))}
+			} else {
+				r.ExpectArg(c, "GetAndParse:decode.source", 0, "io.ReadAll(*)#0")
+			}
+			r.FailEdge(fn, "GetAndParse", EdgeSpec{Name: "json-error", Atom: errAtom, Bad: "non", Want: want})
+			// bytes behind the JSON value: RspError{that status, that body}, like every other malformed 200
+			for _, k := range c12EOFTests(r, fn, c) {
+				r.FailEdge(fn, "GetAndParse", EdgeSpec{Name: "trailing-data.error-shape", Atom: RuleAtom{Pat: k.Key}, Bad: k.NotEOF, Want: want})
+			}
 		} else {
-			r.Fail("GetAndParse:decode", r.FnPos(fn), fmt.Sprintf("expected one JSON decode, found %d", len(dec)))
+			r.Fail("GetAndParse:decode", r.FnPos(fn), fmt.Sprintf("expected one JSON decode of the body into rsp, found %d%s", len(prim), undecided))
 		}
 	}
 	if fn := r.Fn(c12Post); fn != nil {
@@ -159,50 +182,62 @@ func c12TargetIs(r *Run, fn *ssa.Function, c ssa.CallInstruction, key string, i 
 	if i >= len(args) {
 		return r.Check(key, false, r.Where(c), fmt.Sprintf("call %s has no arg %d", CalleeOf(c), i))
 	}
+	why := c12TargetWhy(r, fn, c, i, want)
+	return r.Check(key, why == "", r.Where(c), fmt.Sprintf("arg %d of %s = %s (expected %s, &(%s), or the address of a local that only holds %s%s)", i, CalleeOf(c), r.D.D(args[i]), want, want, want, map[bool]string{true: "", false: ": " + why}[why == ""]))
+}
+
+// c12TargetWhy is the decision behind c12TargetIs without the obligation: "" when argument i of the
+// call is `want` itself or the address of a variable that holds `want` when the call runs, otherwise
+// the reason why not.
+func c12TargetWhy(r *Run, fn *ssa.Function, c ssa.CallInstruction, i int, want string) string {
+	args := CallArgs(c)
+	if i >= len(args) {
+		return "no such argument"
+	}
 	got := r.D.D(args[i])
-	if got == "&("+want+")" {
-		return r.Check(key, true, r.Where(c), fmt.Sprintf("arg %d of %s = %s", i, CalleeOf(c), got))
+	if got == want || got == "&("+want+")" {
+		return ""
 	}
 	a, isAlloc := args[i].(*ssa.Alloc)
 	if mi, ok := args[i].(*ssa.MakeInterface); ok && !isAlloc {
 		a, isAlloc = mi.X.(*ssa.Alloc)
 	}
-	why := "not the address of a local"
-	if isAlloc {
-		why = ""
-		sts := storesInto(fn, a)
-		switch {
-		case len(sts) != 1 || sts[0].Addr != ssa.Value(a):
-			why = fmt.Sprintf("the local is written %d times (expected one whole-value store)", len(sts))
-		case !executesBefore(sts[0], c):
-			why = "the store into the local does not always execute before the call"
-		case r.D.D(sts[0].Val) != want:
-			why = "the local holds " + r.D.D(sts[0].Val)
-		default:
-			for _, ref := range *a.Referrers() {
-				switch x := ref.(type) {
-				case *ssa.Store:
-					if x != sts[0] {
-						why = "the local's address is stored elsewhere"
-					}
-				case *ssa.UnOp, *ssa.DebugRef:
-				case *ssa.MakeInterface:
-					for _, ref2 := range *x.Referrers() {
-						if ref2 != ssa.Instruction(c) {
-							if _, dbg := ref2.(*ssa.DebugRef); !dbg {
-								why = "the local's address is handed on elsewhere"
-							}
+	if !isAlloc {
+		return "not the address of a local"
+	}
+	why := ""
+	sts := storesInto(fn, a)
+	switch {
+	case len(sts) != 1 || sts[0].Addr != ssa.Value(a):
+		why = fmt.Sprintf("the local is written %d times (expected one whole-value store)", len(sts))
+	case !executesBefore(sts[0], c):
+		why = "the store into the local does not always execute before the call"
+	case r.D.D(sts[0].Val) != want:
+		why = "the local holds " + r.D.D(sts[0].Val)
+	default:
+		for _, ref := range *a.Referrers() {
+			switch x := ref.(type) {
+			case *ssa.Store:
+				if x != sts[0] {
+					why = "the local's address is stored elsewhere"
+				}
+			case *ssa.UnOp, *ssa.DebugRef:
+			case *ssa.MakeInterface:
+				for _, ref2 := range *x.Referrers() {
+					if ref2 != ssa.Instruction(c) {
+						if _, dbg := ref2.(*ssa.DebugRef); !dbg {
+							why = "the local's address is handed on elsewhere"
 						}
 					}
-				default:
-					if ref != ssa.Instruction(c) {
-						why = "the local's address is handed on elsewhere"
-					}
+				}
+			default:
+				if ref != ssa.Instruction(c) {
+					why = "the local's address is handed on elsewhere"
 				}
 			}
 		}
 	}
-	return r.Check(key, why == "", r.Where(c), fmt.Sprintf("arg %d of %s = %s (expected &(%s), or the address of a local that only holds %s%s)", i, CalleeOf(c), got, want, want, map[bool]string{true: "", false: ": " + why}[why == ""]))
+	return why
 }
 
 // c12SuccessNeeds200: a nil-error return of the retry loop needs a 200 answer of an attempt that did
